@@ -15,6 +15,9 @@ import (
 	"os"
 	"strings"
 
+	"reflect"
+
+	dap "wa-lang.org/wa/internal/3rdparty/go-dap"
 	"wa-lang.org/wa/internal/3rdparty/slip"
 )
 
@@ -208,6 +211,219 @@ func slipMain(path string) {
 	enc.Encode(map[string]interface{}{"done": true, "n": n, "bad": bad, "drift": drift, "wiredrift": wiredrift})
 }
 
+// ---------------------------------------------------------------- C26
+
+type DapCase struct {
+	Sent [][]int `json:"sent"`
+	Cuts []int   `json:"cuts"`
+	Wire []int   `json:"wire"`
+}
+
+func runDapRaw(c *DapCase) (fail string, wire []byte, got [][]int) {
+	defer func() {
+		if e := recover(); e != nil {
+			fail = fmt.Sprint("panic: ", e)
+		}
+	}()
+	var buf bytes.Buffer
+	for _, b := range c.Sent {
+		if err := dap.WriteBaseMessage(&buf, toBytes(b)); err != nil {
+			return "write error: " + err.Error(), nil, nil
+		}
+	}
+	wire = append([]byte{}, buf.Bytes()...)
+	if !bytes.Equal(wire, toBytes(c.Wire)) {
+		return "the bytes written are not the specified framing", wire, nil
+	}
+	r := bufio.NewReader(&chunkReader{chunks: split(wire, c.Cuts)})
+	got = [][]int{}
+	for i := range c.Sent {
+		b, err := dap.ReadBaseMessage(r)
+		if err != nil {
+			return fmt.Sprintf("message %d: read error: %v", i, err), wire, got
+		}
+		got = append(got, toInts(b))
+		if !bytes.Equal(b, toBytes(c.Sent[i])) {
+			return fmt.Sprintf("message %d read back differently", i), wire, got
+		}
+	}
+	return "", wire, got
+}
+
+// fill sets the fields of a message deterministically for pattern p (1: scalars, 2: also
+// nested pointers, slices, maps, raw JSON), leaving the dispatch fields alone.
+func fill(v reflect.Value, p int, depth int, path string) {
+	switch v.Kind() {
+	case reflect.Struct:
+		for i := 0; i < v.NumField(); i++ {
+			f := v.Type().Field(i)
+			switch f.Name {
+			case "Type", "Command", "Event", "Success":
+				if depth <= 2 {
+					continue // dispatch fields of the protocol envelope
+				}
+			}
+			if f.PkgPath != "" {
+				continue
+			}
+			fill(v.Field(i), p, depth+1, path+"."+f.Name)
+		}
+	case reflect.String:
+		v.SetString(fmt.Sprintf("s%d\\\"é\n", len(path)))
+	case reflect.Int, reflect.Int64, reflect.Int32:
+		v.SetInt(int64(7 + len(path)))
+	case reflect.Float64:
+		v.SetFloat(1.5)
+	case reflect.Bool:
+		v.SetBool(true)
+	case reflect.Ptr:
+		if p >= 2 && depth < 6 {
+			v.Set(reflect.New(v.Type().Elem()))
+			fill(v.Elem(), p, depth+1, path)
+		}
+	case reflect.Slice:
+		if v.Type() == reflect.TypeOf(json.RawMessage{}) {
+			if p >= 2 {
+				v.Set(reflect.ValueOf(json.RawMessage(`{"a":"b"}`)))
+			}
+			return
+		}
+		if p >= 2 && depth < 6 {
+			s := reflect.MakeSlice(v.Type(), 2, 2)
+			fill(s.Index(0), p, depth+1, path+"[0]")
+			fill(s.Index(1), 1, depth+1, path+"[1]")
+			v.Set(s)
+		}
+	case reflect.Map:
+		if p >= 2 && v.Type().Key().Kind() == reflect.String {
+			m := reflect.MakeMap(v.Type())
+			e := reflect.New(v.Type().Elem()).Elem()
+			fill(e, 1, depth+1, path+"[k]")
+			m.SetMapIndex(reflect.ValueOf("k").Convert(v.Type().Key()), e)
+			v.Set(m)
+		}
+	case reflect.Interface:
+		if p >= 2 {
+			v.Set(reflect.ValueOf(map[string]interface{}{"k": "v"}))
+		}
+	}
+}
+
+func dapMain(path string) {
+	f, err := os.Open(path)
+	must(err)
+	defer f.Close()
+	out := bufio.NewWriter(os.Stdout)
+	defer out.Flush()
+	enc := json.NewEncoder(out)
+	sc := bufio.NewScanner(f)
+	sc.Buffer(make([]byte, 1<<20), 1<<24)
+	n, bad := 0, 0
+	var cutsets [][]int
+	for sc.Scan() {
+		js, ok := unescape(sc.Text())
+		if !ok {
+			continue
+		}
+		var c DapCase
+		must(json.Unmarshal([]byte(js), &c))
+		n++
+		if len(cutsets) < 4000 {
+			cutsets = append(cutsets, c.Cuts)
+		}
+		if fail, wire, got := runDapRaw(&c); fail != "" {
+			bad++
+			if bad <= 40 {
+				enc.Encode(map[string]interface{}{"fail": fail, "case": c, "got": got, "wire": toInts(wire), "layer": "framing"})
+			}
+		}
+	}
+	// typed messages: every registered kind x fill pattern, written back to back and read
+	// through TLC-chosen chunkings (cut positions scaled to the wire)
+	ctors := dap.VerifCtors()
+	typed, tbad := 0, 0
+	for p := 0; p <= 2; p++ {
+		var msgs []dap.Message
+		var buf bytes.Buffer
+		for _, ct := range ctors {
+			m := ct.New()
+			mv := reflect.ValueOf(m).Elem()
+			if p > 0 {
+				fill(mv, p, 0, ct.Name)
+			}
+			// the envelope: what the decoder dispatches on
+			setStr := func(name, val string) {
+				f := mv.FieldByName(name)
+				if f.IsValid() && f.Kind() == reflect.Struct { // the embedded envelope struct of the same name
+					f = f.FieldByName(name)
+				}
+				if f.IsValid() && f.Kind() == reflect.String {
+					f.SetString(val)
+				}
+			}
+			setStr("Type", ct.Kind)
+			if ct.Kind == "event" {
+				setStr("Event", ct.Name)
+			} else {
+				setStr("Command", ct.Name)
+			}
+			if f := mv.FieldByName("Success"); f.IsValid() && f.Kind() == reflect.Bool && ct.Kind == "response" {
+				f.SetBool(true)
+			}
+			msgs = append(msgs, m)
+			must(dap.WriteProtocolMessage(&buf, m))
+		}
+		wire := buf.Bytes()
+		for k := 0; k < 40 && k < len(cutsets); k++ {
+			cs := cutsets[(k*97+p*31)%len(cutsets)]
+			var cuts []int
+			for _, c := range cs {
+				cuts = append(cuts, (c*7919+k*13)%len(wire))
+			}
+			// plus regular small chunks of TLC-chosen size
+			size := 1 + (k*5)%23
+			for off := size; off < len(wire); off += size * (1 + k%3) {
+				cuts = append(cuts, off)
+			}
+			sortInts(cuts)
+			r := bufio.NewReader(&chunkReader{chunks: split(wire, cuts)})
+			for i, want := range msgs {
+				typed++
+				got, err := func() (m dap.Message, err error) {
+					defer func() {
+						if e := recover(); e != nil {
+							err = fmt.Errorf("panic: %v", e)
+						}
+					}()
+					return dap.ReadProtocolMessage(r)
+				}()
+				wj, _ := json.Marshal(want)
+				gj, _ := json.Marshal(got)
+				// equal = same Go value, or same JSON (a nil raw message reads back as `null`)
+				if err != nil || !(reflect.DeepEqual(got, want) || (bytes.Equal(wj, gj) && reflect.TypeOf(got) == reflect.TypeOf(want))) {
+					tbad++
+					if tbad <= 20 {
+						enc.Encode(map[string]interface{}{"fail": "typed message read back differently", "layer": "codec", "kind": ctors[i].Kind + ":" + ctors[i].Name,
+							"pattern": p, "error": fmt.Sprint(err), "want": string(wj), "got": string(gj)})
+					}
+					if err != nil {
+						break
+					}
+				}
+			}
+		}
+	}
+	enc.Encode(map[string]interface{}{"done": true, "n": n, "bad": bad, "typed": typed, "typed_bad": tbad, "kinds": len(ctors)})
+}
+
+func sortInts(a []int) {
+	for i := 1; i < len(a); i++ {
+		for j := i; j > 0 && a[j] < a[j-1]; j-- {
+			a[j], a[j-1] = a[j-1], a[j]
+		}
+	}
+}
+
 func must(err error) {
 	if err != nil {
 		fmt.Fprintln(os.Stderr, "harness error:", err)
@@ -222,6 +438,8 @@ func main() {
 	switch os.Args[1] {
 	case "slip":
 		slipMain(os.Args[2])
+	case "dap":
+		dapMain(os.Args[2])
 	default:
 		os.Exit(2)
 	}
